@@ -186,6 +186,8 @@ func runC05(cx *Ctx, r *Report) {
 	if nRew < 3 || nEsc < 6 {
 		r.toolErr("reward payouts %d (≥3) / escrow payouts %d (≥6) below the confirmed counts", nRew, nEsc)
 	}
+	cx.rewardFormula(r)
+	r.requireCount("reward-formula", 1)
 }
 
 func orderedBeforeInstr(a, b ssa.Instruction) bool {
@@ -367,7 +369,76 @@ func runC06(cx *Ctx, r *Report) {
 			r.check(g1 && g2 && g3, "destroy-guards", name, z.ev.Pos(cx), "DestroyPool refunds only under signer == pool creator ∧ Editable ∧ ¬Expired", fmt.Sprintf("DestroyPool refund not dominated by all of creator==signer (%v), Editable (%v), ¬Expired (%v)", g1, g2, g3))
 		}
 	}
+	cx.lostUpdateRule(r, []string{"farm"}, 20)
+	cx.rewardFormula(r)
+	r.requireCount("reward-formula", 1)
 	r.requireCount("budget-release", 5)
 	r.requireCount("budget-refund", 2)
 	r.requireCount("refund-callers", 2)
+}
+
+// rewardFormula (C05/C06): the per-share reward calculation is
+//   pending  = ⌊rewardPerShare·locked⌋ − rewardDebt
+//   newDebt  = ⌊rewardPerShare·(locked + Δ)⌋
+// with both roundings toward zero. Rounding the debt up (or the pending amount
+// down by more) makes pending negative for some residues, which aborts every
+// later unstake/harvest of that farmer; rounding it down less pays rewards twice.
+func (cx *Ctx) rewardFormula(r *Report) {
+	var fn *ssa.Function
+	for _, f := range cx.P.AllFuncs {
+		if shortFn(f) == "(farm/types.FarmPool).CaclRewards" {
+			fn = f
+		}
+	}
+	if fn == nil {
+		r.toolErr("FarmPool.CaclRewards not found")
+		return
+	}
+	w := newWalker(cx)
+	fr := &Frame{Fn: fn}
+	var amts []ssa.Value
+	for _, ci := range findCalls(fn, func(ci ssa.CallInstruction) bool { return calleeIs(ci, "cosmos-sdk/types", "NewCoin") }) {
+		amts = append(amts, ci.Common().Args[1])
+	}
+	if len(amts) != 2 {
+		r.violate("reward-formula", "CaclRewards", cx.P.Pos(fn.Pos()), fmt.Sprintf("the per-share reward calculation builds %d coins (expected the pending reward and the new debt)", len(amts)))
+		return
+	}
+	okP, okD := false, false
+	var seen []string
+	for _, a := range amts {
+		fx := newFx(w)
+		got := fx.StripRound(fx.Eval(a, fr))
+		bind := map[string]Rat{}
+		for sym, t := range fx.leavesOf(got) {
+			switch {
+			case strings.Contains(t, "RewardPerShare"):
+				bind["rps"] = rSym(sym)
+				fx.decSyms[sym] = true
+			case strings.Contains(t, "RewardDebt"):
+				bind["debt"] = rSym(sym)
+			case strings.HasSuffix(t, ".Locked"):
+				bind["locked"] = rSym(sym)
+			case t == "deltaAmt" || strings.HasSuffix(t, "deltaAmt"):
+				bind["delta"] = rSym(sym)
+			}
+		}
+		seen = append(seen, fx.Describe(got)+"  "+fx.Legend(got))
+		if _, ok := bind["delta"]; !ok {
+			bind["delta"] = rSym("·delta")
+		}
+		if _, ok := bind["debt"]; !ok {
+			bind["debt"] = rSym("·debt")
+		}
+		if bind["rps"].N == nil || bind["locked"].N == nil {
+			continue
+		}
+		if ref, err := fx.Ref("floor(rps*locked) - debt", bind); err == nil && rEq(got, ref) {
+			okP = true
+		}
+		if ref, err := fx.Ref("floor(rps*(locked+delta))", bind); err == nil && rEq(got, ref) {
+			okD = true
+		}
+	}
+	r.check(okP && okD, "reward-formula", "CaclRewards", cx.P.Pos(fn.Pos()), "pending = ⌊rewardPerShare·locked⌋ − rewardDebt and new debt = ⌊rewardPerShare·(locked+Δ)⌋, both rounded toward zero", fmt.Sprintf("the per-share reward calculation is not {pending = ⌊rps·locked⌋ − debt: %v, new debt = ⌊rps·(locked+Δ)⌋: %v}; found %s", okP, okD, strings.Join(seen, " ; ")))
 }
